@@ -137,6 +137,28 @@ def run(tier, replay):
             texts.append(("deep", "PRINT " + "LEN(STR$(" * depth + "1" + "))" * depth + "\r\n"))
             texts.append(("deep", "".join("SELECT CASE %d\r\nCASE %d\r\n" % (k, k) for k in range(depth)) + "END SELECT\r\n" * depth))
             texts.append(("deep", "".join("DO\r\n" for _ in range(depth)) + "LOOP\r\n" * depth))
+        # WIDE texts: lists with many elements and with many elements left out (every count up to 40, then 100 and 1000) in every
+        # statement that takes a list; a byte order mark in front of a text (and elsewhere)
+        for n in list(range(1, 41)) + [64, 100, 1000]:
+            commas = "," * n
+            ones = ", ".join("1" for _ in range(n))
+            for head in ("COLOR ", "LOCATE ", "WIDTH ", "VIEW PRINT ", "PRINT ", "LPRINT ", "INPUT ", "CLOSE ", "READ ", "DATA ", "PRINT #1, ", "SCREEN ",
+                         "P ", "X = F(", "DIM A(", "FIELD #1, ", "LINE INPUT ", "ON X GOTO ", "ENVIRON "):
+                close = ")" if head.endswith("(") else ""
+                texts.append(("wide", head + commas + "7" + close + "\r\n"))
+                texts.append(("wide", head + ones + close + "\r\n"))
+                if n <= 8 or n in (32, 33, 1000):
+                    texts.append(("wide", head + commas + close + "\r\n"))
+                    texts.append(("wide", head + "7" + commas + close + "\r\n"))
+        bom = "\ufeff"
+        for t in ['PRINT "hi"\r\n', "", "\r\n", "X = 1 : PRINT X\r\n", "' comment\r\nPRINT 1\r\n", "10 PRINT 1\r\n", "SUB P\r\nEND SUB\r\n"]:
+            texts.append(("bom", bom + t))
+            texts.append(("bom", bom + bom + t))
+            texts.append(("bom", t + bom))
+            texts.append(("bom", " " + bom + t))
+            texts.append(("bom", t[:3] + bom + t[3:]))
+        for sdt in sd[:40]:
+            texts.append(("bom", bom + (sdt if isinstance(sdt, str) else "".join(sdt))))
         # SEVERAL faults of one kind in one text (two to four subprograms declared and not implemented, named like built-ins,
         # defined twice; jumps to labels that do not exist; ill-typed statements): still ONE error, and the same one every time
         import itertools
